@@ -705,6 +705,21 @@ func wgReplay(args []string) error {
 			}
 			record(run.outcome)
 		}
+		// the same type definitions listed in another order (reversed: nothing says they come sorted): the model handed over stays
+		// as it was - same content, same slice, same order - and the outcome is the model's
+		rev := proto.Clone(model).(*openfgav1.AuthorizationModel)
+		for i, j := 0, len(rev.TypeDefinitions)-1; i < j; i, j = i+1, j-1 {
+			rev.TypeDefinitions[i], rev.TypeDefinitions[j] = rev.TypeDefinitions[j], rev.TypeDefinitions[i]
+		}
+		revBefore := proto.Clone(rev).(*openfgav1.AuthorizationModel)
+		revSlice := sliceIdentity(rev)
+		record(buildWG(rev, nil).outcome)
+		revChanged := !proto.Equal(revBefore, rev)
+		for i, td := range rev.GetTypeDefinitions() {
+			if i >= len(revSlice) || revSlice[i] != td {
+				revChanged = true
+			}
+		}
 		// the stored form of a model carries an id, and ids are not content: every model of this run is built once more under ONE id
 		// (the same id in two stores, a fixture id) - the graph is a function of the type definitions handed over
 		sameID := proto.Clone(model).(*openfgav1.AuthorizationModel)
@@ -858,7 +873,7 @@ func wgReplay(args []string) error {
 			}
 			sharedChanged = sharedChanged || !proto.Equal(sharedBefore, shared)
 		}
-		obs.ModelUnchanged = proto.Equal(before, model) && !sharedChanged
+		obs.ModelUnchanged = proto.Equal(before, model) && !sharedChanged && !revChanged
 		after := sliceIdentity(model)
 		if len(after) != len(beforeSlice) {
 			obs.ModelUnchanged = false
